@@ -288,7 +288,7 @@ static int erange_index(const MFile &f, const MVar &v, const Access &a) {
 }
 // NFC normalisation of the few decomposed sequences the generator produces (e / u / a + combining acute / diaeresis / grave)
 std::string nfc_lite(const std::string &in) {
-    static const struct { const char *from, *to; } tab[] = {{"e\xcc\x81", "\xc3\xa9"}, {"u\xcc\x88", "\xc3\xbc"}, {"a\xcc\x80", "\xc3\xa0"}};
+    static const struct { const char *from, *to; } tab[] = {{"\xcc\x81\xcc\x96", "\xcc\x96\xcc\x81"} /* canonical ordering of two marks (class 230 after class 220) */, {"e\xcc\x81", "\xc3\xa9"}, {"u\xcc\x88", "\xc3\xbc"}, {"a\xcc\x80", "\xc3\xa0"}};
     std::string s = in;
     for (auto &t : tab) { size_t pos = 0; std::string f = t.from; while ((pos = s.find(f, pos)) != std::string::npos) { s.replace(pos, f.size(), t.to); pos += strlen(t.to); } }
     return s;
